@@ -20,17 +20,22 @@ RULE = ("generated coolers (enum- and integer-encoded chromosome column, both mo
 ASSUMPTIONS = ["maps that would produce duplicate names are not generated"]
 MIN_NONTRIVIAL = {"quick": 100, "thorough": 1000}
 REQUIRED_FEATURES = ["encoding:enum", "encoding:int", "map:swap", "map:longer-name", "map:shorter-name", "map:rename-back",
-                     "map:partial", "chain:>1", "check:live-object", "check:reopened"]
+                     "map:partial", "chain:>1", "check:live-object", "check:reopened",
+                     "many-contigs:enum-to-int-fallback"]
 
 
 def plan(tier, seed):
     n = 16 if tier == "quick" else 48
     per = 10 if tier == "quick" else 30
-    return [{"kind": "rename", "sub": i, "cases": per} for i in range(n)]
+    return [{"kind": "rename", "sub": i, "cases": per} for i in range(n)] + \
+           [{"kind": "many", "sub": i} for i in range(2 if tier == "quick" else 6)]
 
 
 def run(ctx, shard):
     probes.activate(ctx)
+    if shard["kind"] == "many":
+        many_contigs(ctx, shard)
+        return
     rng0 = ctx.rng("plan", shard["sub"])
     for i in range(shard["cases"]):
         seedk = int(rng0.integers(2**31))
@@ -183,3 +188,65 @@ def one_chain(ctx, cid, rng, idx):
             c.nontrivial(repr(bt), repr(chain), enc, symm)
         ctx.sample({"chromosomes": names, "chain": chain, "encoding": enc}, limit=5)
     os.remove(path)
+
+
+def many_contigs(ctx, shard):
+    """Thousands of contigs: renaming to long names overflows the HDF5 enum header and forces
+    the enum -> integer fallback inside the rename."""
+    import cooler
+
+    rng = ctx.rng("many", shard["sub"])
+    cid = f"many:{shard['sub']}"
+    if not ctx.want(cid):
+        return
+    nct = int([3000, 2500, 4000][shard["sub"] % 3])
+    names = [f"s{i:04d}" for i in range(nct)]
+    bt = [[nm, [0, 7] if i % 3 else [0, 4, 7]] for i, nm in enumerate(names)]
+    n = gen.bt_nbins(bt)
+    P = {}
+    for _ in range(400):
+        a, b = sorted((int(rng.integers(n)), int(rng.integers(n))))
+        P[(a, b)] = int(rng.integers(1, 9))
+    path = ctx.path()
+    make_cooler(path, bt, P)
+    with ctx.case(cid, {"contigs": nct, "note": "enum header near its limit"}) as c:
+        with h5py.File(path, "r") as f:
+            was_enum = h5py.check_dtype(enum=f["bins/chrom"].dtype) is not None
+        c.feature("many-contigs:starts-as-enum" if was_enum else "many-contigs:starts-as-int")
+        clr = cooler.Cooler(path)
+        dig0 = raw_nonname_digest_many(path)
+        k = int(rng.integers(nct // 2, nct))
+        chosen = [names[int(x)] for x in rng.permutation(nct)[:k]]
+        mp = {nm: f"{nm}_renamed_to_a_considerably_longer_scaffold_name_{i:05d}" for i, nm in enumerate(chosen)}
+        cooler.rename_chroms(clr, mp)
+        cur = [mp.get(x, x) for x in names]
+        with h5py.File(path, "r") as f:
+            now_enum = h5py.check_dtype(enum=f["bins/chrom"].dtype) is not None
+        if was_enum and not now_enum:
+            c.feature("many-contigs:enum-to-int-fallback")
+        for label, obj in (("live-object", clr), ("reopened", cooler.Cooler(path))):
+            c.check(obj.chromnames == cur, f"chromnames-wrong:{label}", f"[{label}] chromnames wrong after renaming {k} of {nct}")
+            bb = obj.bins()[:]
+            want_labels = [c2 for c2, (_, e) in zip(cur, bt) for _ in range(len(e) - 1)]
+            c.check(bb["chrom"].astype(str).tolist() == want_labels, f"bin-labels-wrong:{label}:many-contigs",
+                    f"[{label}] bin table chromosome labels wrong after renaming {k} of {nct} contigs "
+                    f"(enum before: {was_enum}, after: {now_enum})",
+                    lambda: {"got": bb["chrom"].astype(str).tolist()[:6], "want": want_labels[:6]})
+            for nm_old in [names[int(x)] for x in rng.permutation(nct)[:25]]:
+                nm = mp.get(nm_old, nm_old)
+                i = names.index(nm_old)
+                fb = obj.bins().fetch(nm)
+                c.check(fb["chrom"].astype(str).tolist() == [nm] * (len(bt[i][1]) - 1), f"fetch-by-new-name-differs:{label}",
+                        f"[{label}] bins().fetch({nm!r}) rows are not labelled with the new name")
+        c.check(raw_nonname_digest_many(path) == dig0, "non-name-data-changed", "lengths/bins/pixels/indexes changed")
+        for key, msg in h5state.validate_uri(path):
+            c.fail(f"invalid-after-rename:{key}", msg)
+        c.nontrivial("many", nct, k)
+        ctx.sample({"many_contigs": nct, "renamed": k, "enum_before": was_enum, "enum_after": now_enum}, limit=6)
+    os.remove(path)
+
+
+def raw_nonname_digest_many(path):
+    # bins/chrom may legitimately switch from enum to plain integers: compare codes, not dtype
+    with h5py.File(path, "r") as f:
+        return h5state.content_digest(f["/"], attrs=True, skip_cols=(("chroms", "name"),))
